@@ -69,6 +69,10 @@ func main() {
 	selftest := flag.Bool("selftest", false, "run every seeded variant and fail if one survives (tests the checker, not the tree)")
 	dump := flag.String("dump", "", "development: dump SSA of a function")
 	repo := flag.String("repo", "", "repository directory (default /repo)")
+	sweep := flag.Bool("sweep", false, "development: mechanical mutation sweep over the library, reports edits no rule notices")
+	sweepOnly := flag.String("sweep-file", "", "restrict the sweep to files whose name contains this")
+	sweepOut := flag.String("sweep-out", "", "write sweep results (json) here")
+	sweepBCE := flag.Bool("sweep-bce", false, "include the (slow) compiler bounds rule in the sweep")
 	emit := flag.Bool("emit-known", false, "development: print unlisted violations as known_findings.json entries")
 	flag.Parse()
 	if *repo != "" {
@@ -98,6 +102,8 @@ func main() {
 		doDump(*dump)
 	case *selftest:
 		os.Exit(doSelftest())
+	case *sweep:
+		os.Exit(doSweep(*sweepOnly, *sweepOut, *sweepBCE))
 	case *all:
 		code := 0
 		for i := 1; i <= 20; i++ {
